@@ -310,3 +310,30 @@ def getSafe (s : State) : Bool :=
           log.all (fun op => op.ins || decide (op.x ∉ s.db.take (s.thr + 1))))
 
 end QbiceVerif.SetCache
+
+namespace QbiceVerif.SetCache
+
+/-! ### `get` split at its two critical sections (for the reader-versus-writer witness)
+
+Before /repo commit 73760b5 (finding F50) `get_entry` took the staging snapshot and probed the cache
+(`getSnap`: the snapshot, if the probe misses) and later, inside the single flight, scanned the store,
+built the entry from THAT snapshot and inserted it if the slot was still vacant (`getFetch`), while
+another task's `insert`/`remove` (`write`) could run between the two.  Since 73760b5 the insert is
+skipped when a write happened since before the snapshot (a generation counter as in the wide cache);
+that check is not modelled here – these two functions exist only for the historical witness. -/
+
+def getSnap (s : State) : Option Snapshot :=
+  match s.entry with
+  | none => some (stagingSnapshot s)
+  | some _ => none
+
+def getFetch (s : State) (sn : Snapshot) : State × List Nat :=
+  let install (e : SEntry) : State := match s.entry with
+    | none => { s with entry := some e }
+    | some _ => s
+  match fetchEntry s sn with
+  | (e, some (half, rest)) => (install e, spillIter s.cfg half rest sn)
+  | (.inMem set, none) => (install (.inMem set), set)
+  | (.tooLarge, none) => (install .tooLarge, streamIter s.db sn)
+
+end QbiceVerif.SetCache
